@@ -2,6 +2,7 @@ import XgcmModel.Model.NDArr
 import XgcmModel.Model.Grid
 import XgcmModel.Model.Stencil
 import XgcmModel.Gen.Axis
+import XgcmModel.Model.RatOps
 /-
   Line protocol: whitespace-separated tokens.  Part of the trusted base
   (encoder/decoder); contains no model logic.
@@ -101,11 +102,6 @@ def fmtArr (a : NDArr Rat) : String :=
   let k := a.dims.length
   String.intercalate " "
     ([toString k] ++ a.dims ++ a.shape.map toString ++ a.toFlat.map fmtRat)
-
-def ratOps : Ops Rat :=
-  { add := (· + ·), sub := (· - ·), mul := (· * ·), divNat := fun x k => x / (k : Rat),
-    min := fun a b => if a ≤ b then a else b, max := fun a b => if a ≤ b then b else a,
-    zero := 0 }
 
 def fmtRes (r : Res (NDArr Rat)) : String :=
   match r with
